@@ -26,6 +26,8 @@ def judge(vec, asg):
     eb, et, ee = exp
     if not (isinstance(got, tuple) and len(got) == 3):
         return "scores() is not a 3-tuple: %r" % (got,), got, exp
+    if "-" in repr(got):
+        return "a score is negative (or negative zero, which prints as -0.0): %r" % (got,), got, exp
     if got[0] is None or got[0] != eb / 10.0:
         return "base score %r, guide equations give %r" % (got[0], eb / 10.0), got, exp
     for slot, name, e in ((1, "temporal", et), (2, "environmental", ee)):
@@ -62,7 +64,14 @@ def visit(acc, blk, vec, asg, idx):
 
 
 def blocks(tier):
-    return spaces.v2_blocks(tier) + [spaces.interaction_block("2", tier)]
+    extra = []
+    if tier != "thorough":
+        # the complete base x temporal x requirement quotient (CDP/TD absent): conditions that span
+        # all three groups at once (the thorough tier's full product contains it)
+        req = spaces.parts(["CR", "IR", "AR"], dict((m, [v for v in T.V2[m] if v != "ND"]) for m in ("CR", "IR", "AR")))
+        extra.append(product.Block("v2.base_x_temporal_x_requirements", "2", spaces.v2_base_all(),
+                                   spaces.ABSENT + spaces.v2_temporal_effective(), req))
+    return spaces.v2_blocks(tier) + extra + [spaces.interaction_block("2", tier), spaces.layout_block("2")]
 
 
 def run(ctx, res):
